@@ -41,7 +41,11 @@ ShimOp(v, e) ==
      [] e.op \in {"addAsk", "reportBound", "updateAsk"} ->
             IF e.key \in DOMAIN v.keys THEN v
             ELSE [v EXCEPT !.keys = Upd(v.keys, e.key, "out"), !.kapp = Upd(v.kapp, e.key, e.app)]
-     [] e.op = "release" -> IF e.key \in DOMAIN v.keys /\ v.kapp[e.key] = e.app THEN [v EXCEPT !.keys = Upd(v.keys, e.key, "relReq")] ELSE v
+     \* releasing an ask that is still outstanding ends it at once (the core sends nothing); releasing a bound allocation
+     \* is answered by the core's release announcement
+     [] e.op = "release" -> IF e.key \in DOMAIN v.keys /\ v.kapp[e.key] = e.app
+                            THEN (IF v.keys[e.key] = "out" THEN [v EXCEPT !.keys = Del(v.keys, {e.key})] ELSE [v EXCEPT !.keys = Upd(v.keys, e.key, "relReq")])
+                            ELSE v
      [] e.op = "confirm" -> IF ~e.none /\ ~e.keep /\ e.key \in DOMAIN v.keys /\ v.keys[e.key] = "relAnn" THEN [v EXCEPT !.keys = Del(v.keys, {e.key})] ELSE v
      [] e.op = "removeApp" ->
             LET mine == {k \in DOMAIN v.keys : v.kapp[k] = e.app} IN
